@@ -20,15 +20,16 @@ CONSTANTS B,         \* read buffer size
           AllPositions  \* TRUE: every byte position is a cut candidate; FALSE: only those next to a field boundary
 
 Pub(q, n) == [k |-> "pub", qos |-> q, n |-> n]
+Dup(n) == [k |-> "dup", qos |-> 2, n |-> n]     \* retransmission (DUP) of the exactly-once publication right before it
 Pong == [k |-> "pong", qos |-> 0, n |-> 0]
 Suback == [k |-> "suback", qos |-> 0, n |-> 1]
 
-Rem(p) == CASE p.k = "pub" -> 2 + 1 + (IF p.qos > 0 THEN 2 ELSE 0) + p.n
+Rem(p) == CASE p.k \in {"pub", "dup"} -> 2 + 1 + (IF p.qos > 0 THEN 2 ELSE 0) + p.n
             [] p.k = "pong" -> 0
             [] p.k = "suback" -> 3
 RLB(r) == IF r < 128 THEN 1 ELSE IF r < 16384 THEN 2 ELSE 3
 Size(p) == 1 + RLB(Rem(p)) + Rem(p)
-IsBig(p) == p.k = "pub" /\ Rem(p) > B
+IsBig(p) == p.k \in {"pub", "dup"} /\ Rem(p) > B
 
 ConnackSize == 4
 RECURSIVE Total(_)
